@@ -540,6 +540,16 @@ func (t *txPool) checkTxBatch(ctx context.Context) error {
 	goodPcts := make([]*PendingCheckTransaction, 0, len(results))
 	batchIndices := make([]int, 0, len(results))
 	for i, res := range results {
+		if res.IsSuccess() && res.Meta == nil {
+			// A successful check result must carry the metadata needed for scheduling. Treat a
+			// malformed result as a failed check.
+			results[i].Error = protocol.Error{
+				Module:  "txpool",
+				Code:    1,
+				Message: "malformed check result: missing metadata",
+			}
+			res = results[i]
+		}
 		if !res.IsSuccess() {
 			rejectedTransactions.With(t.getMetricLabels()).Inc()
 			t.logger.Debug("check tx failed",
